@@ -17,7 +17,7 @@ set_option linter.unusedSimpArgs false
 
 namespace SV.Props.C08
 open SV SV.Fl SV.DiscL
-open SV.Spec.Discretise (Rel holds near disc event Counts countBy countSpec countEvents bothValid)
+open SV.Spec.Discretise (Rel holds near disc discX event Counts countBy countSpec countEvents bothValid)
 open SV.Gen.Discretise (comparative_discretise comparative_discretise_kernel abs_tolerance_sanitised
   INEQUALITY_MODES EQUALITY_MODES events_make_contingency_manager events_make_event_tables)
 open SV.Gen.Contingency (map_tp map_tn map_fp map_fn)
@@ -202,6 +202,26 @@ theorem mode_table_op (r : Rel) (x c t : Rat) (ht : 0 ≤ t) :
 theorem disc_eq_spec (r : Rel) (x c t : Rat) (ht : 0 ≤ t) :
     (comparative_discretise (fin x) (fin c) (.str r.str) (some (fin t))).toOption = disc r (fin x) (fin c) t := by
   rw [mode_table r x c t ht]; rfl
+
+/-- …and on the extended reals: an infinite datum and/or threshold is a valid, comparable value and the
+    implementation follows the order of the extended reals (`Spec.discX`) for every tolerance `t ≥ 0`
+    (`==` / `!=` between two equal infinities is outside `discX`'s domain: notes/C08.md N-C08-1) -/
+theorem disc_eq_specX (r : Rel) (x c : Fl) (t : Rat) (ht : 0 ≤ t) (v : Fl) (h : discX r x c t = some v) :
+    comparative_discretise x c (.str r.str) (some (fin t)) = .ok v := by
+  rw [cd_some _ _ _ t ht]
+  have hk : ∀ q : Rat, mul (fin t) (fin q) = fin (t * q) := fun q => rfl
+  cases x <;> cases c <;> cases r <;>
+    simp [discX, disc, Rel.op, PyOp.apply, beq, ofBool, Fl.ge, Fl.gt, Fl.le, Fl.lt] at h <;>
+    (try subst h) <;>
+    first
+    | (rw [← cd_some _ _ _ t ht, mode_table _ _ _ _ ht])
+    | (unfold comparative_discretise_kernel
+       simp [Rel.str, keys_ge, keys_gt, keys_le, keys_lt, keys_eq, keys_ne, ekeys_eq, ekeys_ne,
+         look_ge, look_gt, look_le, look_lt, look_eq, look_ne, PyOp.apply, whereB, notNan, isNan, ofBool,
+         Fl.neg, Fl.add, Fl.sub, Fl.abs, Fl.mul, Fl.ge, Fl.gt, Fl.le, Fl.lt, pure, Except.pure])
+
+example : discX .ge pinf pinf (1/4) = some (fin 1) ∧ discX .lt ninf (fin 2) 0 = some (fin 1) ∧
+    discX .ne pinf (fin 2) 0 = some (fin 1) ∧ discX .eq pinf pinf 0 = none := by decide +kernel
 
 /-! ## 3. NaN in, NaN out; complementary relations sum to 1; guards. -/
 
